@@ -196,26 +196,45 @@ def stage_b_invalid(ctx, res, stats, n_cases, batch):
             res.corr_failures.append(Violation("model-accepts-invalid-history", f"initOk true on invalid input ({c['mode']})", replay, "B"))
 
 
-def gamma_case(rng):
+GAMMA_POOL = [(1.0, 1.0), (2.0, 0.5), (5.0, 3.0), (0.7, 2.0), (20.0, 25.0), (60.0, 100.0)]
+
+
+def gamma_query(h, ps, tb, mode, shape, rate, source):
+    """one gamma_to_natural query: the special-function values exactly as the code computes them (inf/0 included)"""
     import scipy.special as sp
-    ps, tb, mode = dc.gen_history(rng, wide=False)
-    if len(ps) > 7:            # numpy's sum is pairwise-unrolled from 8 elements on: the model sums sequentially
-        ps, tb = ps[:7], tb[:6]
-    h = dc.make_history(ps, tb)
-    tight = rng.random() < 0.15
-    shape = float(rng.choice([120.0, 150.0, 170.0, 172.0, 200.0, 400.0])) if tight else float(dc.loguniform(rng, 0.2, 60))
-    # rate chosen so that the gamma's mass is spread over the epochs
-    span = float(h.coalescent_breaks[-1]) if len(ps) > 1 else 1.0
-    rate = float(shape / (span * dc.loguniform(rng, 0.05, 5))) if span > 0 else 1.0
-    with np.errstate(all="ignore"):      # the special-function values exactly as the code computes them (inf/0 included)
+    with np.errstate(all="ignore"):
         C = float(np.exp(shape * np.log(rate) - sp.loggamma(shape)))
         gam = [float(sp.gamma(shape + k)) for k in range(3)]
         pw = [float(np.float64(rate) ** (shape + k)) for k in range(3)]
         P = [[float(sp.gammainc(shape + k, rate * x)) for x in h.coalescent_breaks] for k in range(3)]
         Pinf = [float(sp.gammainc(shape + k, np.inf)) for k in range(3)]
     overflow = not (np.isfinite(gam[2]) and np.isfinite(pw[2]) and pw[0] > 0 and np.isfinite(C) and C > 0)
-    return dict(ps=ps, tb=tb, shape=shape, rate=rate, C=C, gam=gam, pw=pw, P=P, Pinf=Pinf, mode=mode, tight=tight,
-                overflow=overflow), h
+    return dict(ps=ps, tb=tb, shape=float(shape), rate=float(rate), C=C, gam=gam, pw=pw, P=P, Pinf=Pinf, mode=mode,
+                source=source, overflow=overflow)
+
+
+def gamma_sequence(rng, n_hist):
+    """A *sequence* of queries: several histories, each asked for a few (shape, rate) pairs taken from one pool that is
+    shared by all histories of the run (incl. the defaults shape=1, rate=1) plus one pair adapted to the history, in a
+    randomly interleaved order - the class must answer each query from (history, shape, rate) alone."""
+    pool = list(GAMMA_POOL) + [(float(dc.loguniform(rng, 0.3, 30)), float(dc.loguniform(rng, 0.05, 50))) for _ in range(2)]
+    queries = []
+    for hi in range(n_hist):
+        ps, tb, mode = dc.gen_history(rng, wide=False)
+        if len(ps) > 7:        # numpy's sum is pairwise-unrolled from 8 elements on: the model sums sequentially
+            ps, tb = ps[:7], tb[:6]
+        h = dc.make_history(ps, tb)
+        picks = [pool[k] for k in rng.choice(len(pool), size=2, replace=False)]
+        tight = rng.random() < 0.15
+        shape = float(rng.choice([120.0, 150.0, 170.0, 172.0, 200.0, 400.0])) if tight else float(dc.loguniform(rng, 0.2, 60))
+        span = float(h.coalescent_breaks[-1]) if len(ps) > 1 else 1.0      # mass spread over the epochs
+        rate = float(shape / (span * dc.loguniform(rng, 0.05, 5))) if span > 0 else 1.0
+        for (a, b), src in [(picks[0], "pool"), (picks[1], "pool"), ((shape, rate), "adapted")]:
+            q = gamma_query(h, ps, tb, mode, a, b, src)
+            q["hist"] = hi
+            queries.append((q, h))
+    order = rng.permutation(len(queries))
+    return [queries[k] for k in order]
 
 
 def quad_moments(h, shape, rate):
@@ -239,19 +258,26 @@ def quad_moments(h, shape, rate):
     return m1, m2 - m1 * m1
 
 
-def stage_gamma(ctx, res, stats, n_cases, batch):
+def stage_gamma(ctx, res, stats, n_hist, batch):
     rng = ctx.rng(6)
-    cases, hs = [], []
-    for _ in range(n_cases):
-        c, h = gamma_case(rng)
-        cases.append(c)
-        hs.append(h)
+    seq = gamma_sequence(rng, n_hist)
+    cases, hs = [q for q, _ in seq], [h for _, h in seq]
+    users = {}
+    for c in cases:
+        users.setdefault((c["shape"], c["rate"]), set()).add(c["hist"])
+    stats["gamma_queries"] = len(cases)
+    stats["gamma_histories"] = n_hist
+    stats["gamma_keys_reused_across_histories"] = sum(1 for v in users.values() if len(v) >= 2)
+    stats["gamma_max_histories_per_key"] = max((len(v) for v in users.values()), default=0)
     ids = [batch.add(dc.enc_gamma, c, "f") for c in cases]
     yield
-    for i, c, h in zip(ids, cases, hs):
+    # the real calls below happen in the interleaved order of `seq`, all in this one process
+    for pos, (i, c, h) in enumerate(zip(ids, cases, hs)):
         res.evaluations += 1
         replay = dict(kind="gamma", ps=[f2h(x) for x in c["ps"]], tb=[f2h(x) for x in c["tb"]],
-                      shape=f2h(c["shape"]), rate=f2h(c["rate"]))
+                      shape=f2h(c["shape"]), rate=f2h(c["rate"]), source=c["source"],
+                      asked_before=[dict(ps=[f2h(x) for x in p["ps"]], tb=[f2h(x) for x in p["tb"]]) for p in cases[:pos]
+                                    if (p["shape"], p["rate"]) == (c["shape"], c["rate"]) and p["hist"] != c["hist"]][:3])
         stats["gamma_overflow_inputs"] += int(c["overflow"])
         try:
             with np.errstate(all="ignore"):
@@ -320,6 +346,68 @@ def stage_gamma(ctx, res, stats, n_cases, batch):
                 stats["gamma_degenerate"] += 1
     if cases:
         res.sample(dict(kind="gamma", shape=cases[0]["shape"], rate=cases[0]["rate"], epochs=len(cases[0]["ps"])))
+
+
+def grid_sequence(ts, demogs):
+    """make_parameter_grid of ONE MixturePrior under several demographies, in the given order; -> list of findings"""
+    import tsdate.prior as tp
+    from tsdate.demography import PopulationSizeHistory
+    mp = tp.MixturePrior(ts, False, None, "gamma", False, False)
+    alpha = mp.prior_params[:, tp.PriorParams.field_index("alpha")]
+    beta = mp.prior_params[:, tp.PriorParams.field_index("beta")]
+    bad, rows = [], 0
+    for ps, tb in demogs:
+        h = PopulationSizeHistory(np.array(ps, dtype=float), np.array(tb, dtype=float))
+        with np.errstate(all="ignore"):
+            grid = mp.make_parameter_grid(h)
+        nodes = [int(u) for u in grid.nonfixed_nodes]
+        for k, u in enumerate(nodes):
+            got = np.asarray(grid[u], dtype=float)
+            a, b = float(alpha[u]), float(beta[u])
+            if not (np.isfinite(a) and np.isfinite(b) and a > 0 and b > 0 and a < 100):
+                continue
+            rows += 1
+            if len(ps) == 1:
+                want = (a, b / (2 * ps[0]))
+                if not (abs(got[0] - want[0]) <= 1e-7 * (1 + a) * want[0] and abs(got[1] - want[1]) <= 1e-7 * (1 + a) * want[1]):
+                    bad.append(("grid-constant-size-not-rescaled",
+                                f"node {u}: prior gamma ({a!r}, {b!r}) under constant N={ps[0]!r} became {list(got)}, expected {list(want)}"))
+                    break
+            elif k < 3:
+                mn, va = quad_moments(h, a, b)
+                gm, gv = got[0] / got[1], got[0] / got[1] ** 2
+                if not (abs(gm - mn) <= 1e-6 * abs(mn) and abs(gv - va) <= 1e-5 * (1 + a) * abs(va)):
+                    bad.append(("grid-moments-mismatch",
+                                f"node {u}: prior gamma ({a!r}, {b!r}) under sizes {ps} / breaks {tb}: grid mean/var {gm!r}/{gv!r}, "
+                                f"quadrature {mn!r}/{va!r}"))
+                    break
+    return bad, rows
+
+
+def stage_grid(ctx, res, stats, n_ts):
+    """`MixturePrior.make_parameter_grid` (the caller of gamma_to_natural in the pipeline) for one tree sequence under several
+    demographies in one process, in random order: every grid must be the one of ITS demography"""
+    from .. import gen
+    rng = ctx.rng(8)
+    for _ in range(n_ts):
+        ts, info = gen.sim_ts(rng, n=int(rng.integers(3, 8)), trees=int(rng.choice([1, 2, 4])))
+        demogs = [([float(dc.loguniform(rng, 0.5, 1e5))], []), ([float(dc.loguniform(rng, 0.5, 1e5))], [])]
+        ps, tb, _ = dc.gen_history(rng, wide=False)
+        if len(ps) > 1:
+            demogs.append((ps[:4], tb[:3]))
+        demogs = [demogs[k] for k in rng.permutation(len(demogs))]
+        res.evaluations += 1
+        replay = dict(kind="grid", ts=gen.ts_to_jsonable(ts), demographies=[dict(ps=[f2h(x) for x in p], tb=[f2h(x) for x in t]) for p, t in demogs])
+        try:
+            bad, rows = grid_sequence(ts, demogs)
+        except Exception as e:  # noqa: BLE001
+            bad, rows = [("grid-raises", f"make_parameter_grid raised {type(e).__name__}: {str(e)[:120]}")], 0
+        stats["grid_rows"] += rows
+        stats["grid_sequences"] += 1
+        for kind, what in bad:
+            res.violations.append(Violation(kind, f"make_parameter_grid under {len(demogs)} demographies on one tree sequence: {what}", replay))
+        if not bad:
+            res.nontrivial.add(common.canon_key(replay))
 
 
 # ----------------------------------------------------------------------------- C
@@ -403,13 +491,13 @@ def _oracle_history(res, stats, c):
 def run(ctx):
     res = Result()
     stats = dict(epochs={}, modes={}, times=0, hyp_initOk=0, worst_fwd_ratio=0.0, ctm_pre_true=0, ctm_pre_false=0,
-                 invalid={}, gamma_worst_rel=0.0, gamma_const=0, gamma_quad=0, gamma_degenerate=0, gamma_overflow_inputs=0,
+                 invalid={}, gamma_worst_rel=0.0, gamma_const=0, gamma_quad=0, gamma_degenerate=0, gamma_overflow_inputs=0, grid_rows=0, grid_sequences=0,
                  rt_points=0, rt_tight=0)
     cases = dc.make_cases(ctx, ctx.n(250, 5000))
     batch = dc.Batch()
     # each stage is a generator: first half queues its cases, second half (after the single driver run) compares
     stages = [stage_b_hist(ctx, res, stats, cases, batch), stage_b_ctm(ctx, res, stats, ctx.n(120, 2000), batch),
-              stage_b_invalid(ctx, res, stats, ctx.n(40, 400), batch), stage_gamma(ctx, res, stats, ctx.n(60, 800), batch)]
+              stage_b_invalid(ctx, res, stats, ctx.n(40, 400), batch), stage_gamma(ctx, res, stats, ctx.n(30, 300), batch)]
     for g in stages:
         next(g)
     batch.run()
@@ -418,12 +506,16 @@ def run(ctx):
             pass
     for c in cases:
         oracle_history(res, stats, c)
+    stage_grid(ctx, res, stats, ctx.n(12, 150))
     res.rule = ("B: random histories (1-8 epochs; sizes and breaks log-uniform over 1e-3..1e9, plus moderate, integer and "
                 "equal-size families) x time vectors containing 0, every exact break point and its two float neighbours, "
                 "points inside every epoch and far beyond the last break; Lean model at Float compared bit-for-bit with the "
                 "real class (stored arrays, both maps, as_dict), at Rat within 16x the rounding scale of the formula; the "
-                "static method on free inputs incl. each violated assertion; invalid constructor inputs; gamma_to_natural on "
-                "the same scipy values. C: statement on the real class. Non-trivial = history with >= 2 epochs (breaks "
+                "static method on free inputs incl. each violated assertion; invalid constructor inputs; gamma_to_natural as a SEQUENCE: a "
+                "pool of (shape, rate) pairs (incl. the defaults 1, 1) shared by all histories of the run plus one adapted pair per "
+                "history, queried in randomly interleaved order in one process, every answer compared with the model's answer for "
+                "that history on the same scipy values; make_parameter_grid of one tree sequence under 2-3 demographies in random "
+                "order. C: statement on the real class. Non-trivial = history with >= 2 epochs (breaks "
                 "exercised) or multi-epoch gamma case; distinct by canonical hash of the input.")
     n_invalid = sum(stats["invalid"].values())
     stats["hyp_initOk_rate"] = stats["hyp_initOk"] / max(1, stats["hyp_initOk"] + n_invalid)   # over all constructor inputs generated
@@ -480,13 +572,36 @@ def replay(ctx, payload):
         print("model         :", out.get(0))
         m = out.get(0)
         return (r is None) == (m is None) and (r is None or all(dc.bits_equal(m[t], list(x)) for t, x in zip(("nt", "nb", "nm"), r)))
+    if d["kind"] == "grid":
+        from .. import gen
+        ts = gen.ts_from_jsonable(d["ts"])
+        demogs = [([h2f(x) for x in q["ps"]], [h2f(x) for x in q["tb"]]) for q in d["demographies"]]
+        print("demographies, in the order queried:", demogs)
+        bad, rows = grid_sequence(ts, demogs)
+        print("rows checked:", rows, "violations:", bad)
+        return not bad
     if d["kind"] == "gamma":
+        shape, rate = h2f(d["shape"]), h2f(d["rate"])
+        # replay the sequence: the histories that were asked for the same (shape, rate) earlier in the run come first
+        for k, p in enumerate(d.get("asked_before", [])):
+            hp = dc.make_history([h2f(x) for x in p["ps"]], [h2f(x) for x in p["tb"]])
+            with np.errstate(all="ignore"):
+                print(f"earlier history {k} (2N = {list(hp.population_size)}): gamma_to_natural ->", list(hp.gamma_to_natural(np.float64(shape), np.float64(rate))))
         h = dc.make_history([h2f(x) for x in d["ps"]], [h2f(x) for x in d["tb"]])
-        got = h.gamma_to_natural(h2f(d["shape"]), h2f(d["rate"]))
-        print("implementation: gamma_to_natural ->", list(got))
+        try:
+            with np.errstate(all="ignore"):
+                got = h.gamma_to_natural(np.float64(shape), np.float64(rate))
+        except Exception as e:  # noqa: BLE001
+            print("implementation: raised", type(e).__name__, e)
+            return False
+        print(f"implementation (2N = {list(h.population_size)}): gamma_to_natural({shape}, {rate}) ->", list(got))
+        if not np.all(np.isfinite(got)):
+            return False
         if len(d["ps"]) > 1:
-            mn, va = quad_moments(h, h2f(d["shape"]), h2f(d["rate"]))
+            mn, va = quad_moments(h, shape, rate)
             print("quadrature mean/var:", mn, va, " returned gamma mean/var:", got[0] / got[1], got[0] / got[1] ** 2)
             return bool(abs(got[0] / got[1] - mn) <= 1e-6 * abs(mn))
-        return bool(abs(got[0] - h2f(d["shape"])) <= 1e-6 * h2f(d["shape"]))
+        want = (shape, rate / float(h.population_size[0]))
+        print("constant size: expected", want)
+        return bool(abs(got[0] - want[0]) <= 1e-6 * want[0] and abs(got[1] - want[1]) <= 1e-6 * want[1])
     return False
